@@ -8,6 +8,7 @@ import (
 	"encoding/base64"
 	"fmt"
 	"net"
+	"os"
 	"sort"
 	"strings"
 	"time"
@@ -1077,6 +1078,9 @@ func sysQuery(f []string) vlib.Res {
 		r = sys.p.Query(name, qt, fl)
 	}
 	tr := sys.w.Truth(name, qt)
+	if os.Getenv("C01_DUMP") != "" && r != nil {
+		fmt.Fprintf(os.Stderr, "DUMP %s %s %s\n%s\n", name, f[3], f[4], r.String())
+	}
 	// an answer validated while the anchors were live may still be served from cache after their loss;
 	// a FRESH question may not be answered positively at all
 	if sys.asked == nil {
@@ -1107,7 +1111,11 @@ func sysQuery(f []string) vlib.Res {
 	}
 	ans := stripSigs(r.Answer)
 	ede := edeOf(r)
-	impl := fmt.Sprintf("rcode=%s ad=%s ans=%d ede=%s truth=%s/%s", dns.RcodeToString[r.Rcode], vlib.B(r.AuthenticatedData), len(ans), ede, tr.Kind, tr.Status)
+	var shape []string
+	for _, rr := range ans {
+		shape = append(shape, strings.ToLower(rr.Header().Name)+"/"+dns.TypeToString[rr.Header().Rrtype])
+	}
+	impl := fmt.Sprintf("rcode=%s ad=%s ans=%d ede=%s truth=%s/%s answer=[%s]", dns.RcodeToString[r.Rcode], vlib.B(r.AuthenticatedData), len(ans), ede, tr.Kind, tr.Status, strings.Join(shape, ","))
 	isTruth := r.Rcode == tr.Rcode && sameRRs(ans, tr.Answer)
 	allPublished := true
 	for _, rr := range ans {
